@@ -10,7 +10,7 @@ Spec:   the declarative predicates of Spec/C11.v are evaluated in Coq on the rec
 Integrity: every block of every final state, plus library blocks at several widths with single faults (one driver missing,
         one source cleared, one duplicated driver): real checkIntegrity verdict vs model verdict vs spec verdict.
 Repaired defects F1/F2 (known_findings/C11.json, status fixed): their witnesses are replayed on every run; a regression is a VIOLATION."""
-import random, time
+import random, time, json
 import common
 from common import quiet
 from props import c11_world as cw
@@ -154,6 +154,36 @@ def run_sequences(ctx, V, n_random, n_ops):
             judge_sequence(ctx, V, tag, ops, rec, W, (rj[0], [], []))
         ctx.notes['sequences_where_model_and_impl_differ'] = len(broken)
     ctx.notes['sequences'] = {'directed': len(cw.DIRECTED), 'random': n_random, 'calls': sum(len(b[1]) for b in batch), 'calls_that_raised': n_raise}
+
+
+def run_interfaces(ctx, V, n_seq):
+    """Model/BuildIface.v (addInterfaceSource / addInterfaceSink as derived operation lists: the subject of C11_interface_* and C16_interface_*)
+    against the REAL calls: raise / no raise and the whole object graph after every call (`ifirst_diff`)."""
+    PREI = PRE.replace('Model.BuildCheck.', 'Model.BuildCheck Model.BuildIface.')
+    batch = []
+    for i in range(n_seq):
+        seed = ctx.seed * 1000003 + 700000 + i
+        W, ops, rec = cw.iface_run(random.Random(seed), 18)
+        batch.append(('interfaces:seed=%d' % seed, ops, rec))
+        for o, (r, d, _) in zip(ops, rec): ctx.count(('iface', o[0], r, len(d[2])))
+    items = []
+    for j, (tag, ops, rec) in enumerate(batch):
+        ex = '[' + '; '.join('(%d, %s)' % (1 if r else 0, cw.dump_term(d)) for r, d, _ in rec) + ']'
+        items.append(('i%d' % j, 'ifirst_diff init [%s] %s 0' % ('; '.join(cw.iop_term(o) for o in ops), ex)))
+    res = {}
+    for b in range(0, len(items), 20):
+        res.update(common.coq_eval('C11_iface_%d' % (b // 20), PREI, items[b:b + 20], timeout=900))
+    n_calls = 0
+    for j, (tag, ops, rec) in enumerate(batch):
+        n_calls += sum(1 for o in ops if o[0].startswith('AddIface'))
+        fd = res['i%d' % j]
+        if fd is not None:
+            i = int(fd[1][0])
+            V.tie_breaks.append({'what': 'model (coq/Model/BuildIface.v: interface calls as derived operation lists) and real py4hw disagree after this call', 'sequence': tag,
+                                 'at_op_index': i, 'op': json.loads(json.dumps(ops[i])) if i < len(ops) else None, 'ops': json.loads(json.dumps(ops[:i + 1])),
+                                 'impl(raised,state)': [bool(rec[i][0]), rec[i][1]] if i < len(rec) else None, 'impl_exception': rec[i][2] if i < len(rec) else None,
+                                 'model(raised,state)': [fd[1][1], fd[1][2]]})
+    ctx.notes['interface_sequences'] = {'sequences': len(batch), 'interface_calls': n_calls, 'raised': sum(1 for _, ops, rec in batch for o, (r, _, _) in zip(ops, rec) if r and o[0].startswith('AddIface'))}
 
 
 def run_pairs(ctx, V):
@@ -344,6 +374,7 @@ def run(ctx):
     n_random, n_ops = (64, 30) if ctx.quick else (900, 36)
     import traceback
     for phase, fn in (('sequences', lambda: run_sequences(ctx, V, n_random, n_ops)),
+                      ('interface calls', lambda: run_interfaces(ctx, V, 40 if ctx.quick else 400)),
                       ('exhaustive pairs', (lambda: None) if ctx.quick else (lambda: run_pairs(ctx, V))),
                       ('library', lambda: run_library(ctx, V, widths_per_block=3 if ctx.quick else 6, all_inputs=not ctx.quick)),
                       ('witnesses of repaired defects', lambda: replay_witnesses(ctx, V))):
